@@ -60,7 +60,7 @@ theorem push_err_iff (ext : Ext) (x : SVal) (b : B) (dt : DataType) (n : Bool) (
     cases hp : push ext b x with
     | error e' => exact ⟨e', rfl⟩
     | ok b' =>
-      obtain ⟨_, _, _, lv, _, hlv⟩ := push_interp ext x b b' dt n md hraw hwf hsafe hshape hp
+      obtain ⟨_, _, _, lv, _, hlv⟩ := push_interp ext x b b' dt n md (noRaw_ssa x hraw) (Or.inl hraw) hwf hsafe hshape hp
       rw [he] at hlv; cases hlv
 
 /-- all rows representable + capacity ⇒ the fold over the rows succeeds -/
@@ -75,7 +75,7 @@ theorem foldl_push_complete (ext : Ext) (dt : DataType) (n : Bool) (md : Metadat
     simp only [List.map_cons, List.sum_cons] at hcap ⊢
     obtain ⟨root1, h1, hroom1⟩ := push_complete ext r root dt n md lv hlv hwf hsafe hshape htot hraw
       (show vsize ext r ≤ room root by omega)
-    obtain ⟨hw1, hs1, hsh1, _⟩ := push_interp ext r root root1 dt n md hraw hwf hsafe hshape h1
+    obtain ⟨hw1, hs1, hsh1, _⟩ := push_interp ext r root root1 dt n md (noRaw_ssa r hraw) (Or.inl hraw) hwf hsafe hshape h1
     obtain ⟨root', h2, hroom2⟩ := foldl_push_complete ext dt n md rest root1 hw1 hs1 hsh1 htot
       (fun r' hr' => hrows r' (by simp [hr'])) (by omega)
     refine ⟨root', ?_, by omega⟩
@@ -124,7 +124,7 @@ theorem toMarrow_complete (ext : Ext) (fields : List Field) (rows : List SVal) (
   obtain ⟨hw, _, _, _⟩ := runRows_rows ext fields rows root0 root h0 hsafe hrun
   have hb := Lemmas.C03.runRows_builtFor ext fields rows root (Build.push_takeRest ext) hrun
   have hf := Lemmas.C03.FinB_of_builtFor root _ _ hb (by simpa [Lemmas.C03.typedDT] using htyped)
-  obtain ⟨_, _, p, fs, cached, next, seen, hroot, _⟩ := runRows_interp ext fields rows root0 root hc h0 hsafe hraw hrun
+  obtain ⟨_, _, p, fs, cached, next, seen, hroot, _⟩ := runRows_interp ext fields rows root0 root hc h0 hsafe (fun x hx => noRaw_ssa x (hraw x hx)) (Or.inl hraw) hrun
   obtain ⟨⟨arrs, rest⟩, hba⟩ := Lemmas.C03.buildArrays_total ext root hw hf ⟨_, _, _, _, _, _, _, hroot⟩
   refine ⟨arrs, ?_⟩
   rw [Props.C03.toMarrow_eq, hrun]
@@ -146,7 +146,8 @@ theorem toMarrow_complete_decode (ext : Ext) (fields : List Field) (rows : List 
           interpRow ext fields rows[i] = .ok (.struct (LFields.ofList (cols.map fun c => (c.1, c.2.getD i .null)))) := by
   obtain ⟨arrs, h⟩ := toMarrow_complete ext fields rows root0 hc h0 hsafe htot htyped hrows hcap
   exact ⟨arrs, h, C01_build_decode ext fields rows arrs hschema hc
-    (fun r hr => by rw [h0] at hr; cases hr; exact hsafe) (fun x hx => (hrows x hx).1) h⟩
+    (fun r hr => by rw [h0] at hr; cases hr; exact hsafe) (fun x hx => noRaw_ssa x (hrows x hx).1)
+    (Or.inl fun x hx => (hrows x hx).1) h⟩
 
 /-! ### non-vacuity -/
 
